@@ -389,7 +389,9 @@ impl Execute for ast::Pipeline {
         let spawn_results = spawn_pipeline_processes(self, shell, &params).await?;
 
         #[cfg(feature = "verif-hooks")]
-        crate::verif_hooks::pause("pipeline_before_wait");
+        if self.seq.len() > 1 {
+            crate::verif_hooks::pause("pipeline_before_wait");
+        }
 
         // Wait for the processes. This also has a side effect of updating pipeline status.
         let mut result =
@@ -568,7 +570,9 @@ async fn spawn_pipeline_processes(
         spawn_results.push_back(spawn_result);
 
         #[cfg(feature = "verif-hooks")]
-        crate::verif_hooks::pause_indexed("pipeline_stage_spawned", current_pipeline_index);
+        if pipeline_len > 1 {
+            crate::verif_hooks::pause_indexed("pipeline_stage_spawned", current_pipeline_index);
+        }
     }
 
     Ok(spawn_results)
